@@ -123,7 +123,12 @@ def make_object(spec: tuple) -> Any:
     if kind == 'HINFO':
         return DNSHinfo(name, type_, cls, ttl, rd[0], rd[1], created)
     if kind == 'NSEC':
-        return DNSNsec(name, type_, cls, ttl, rd[0], list(rd[1]), created)
+        # the caller goes on using the list it built the record from (a record must not be changed by that)
+        work = list(rd[1])
+        rec = DNSNsec(name, type_, cls, ttl, rd[0], work, created)
+        work.append(99)
+        work.reverse()
+        return rec
     raise ValueError(kind)
 
 
